@@ -1,7 +1,18 @@
-import Fv.Lemmas.CacheFrame
+import Fv.Lemmas.CacheAccounting
 import Fv.Cache.Policy.Lru
 /-
 C13 — capacity is enforced and cost accounting matches residency.
+
+What is proved about the model (`Fv.Cache.stepOp`, every eviction policy, every oracle):
+
+* `C13_accounting_step`: every API call except `run_maintenance` preserves "keys are distinct and
+  `current_cost` = cost sum of the resident entries (mod 2^64)" — unconditionally, whatever the
+  policy answers.
+* `C13_accounting_partial`: `run_maintenance` preserves it IF every capacity pass is honest
+  (`CapHonest`); the real code is not (F8c, `C13_fails_F8c`).
+* `capacity_pass_enforces_partial`, `capacity_bridge`: an honest capacity pass whose policy can
+  release the overage brings the cache back under its capacity; F8a/F8b show passes that cannot
+  (`C13_fails_F8a`, `C13_fails_F8b`).
 -/
 namespace Fv.Props.C13
 open Fv.Cache
@@ -17,7 +28,202 @@ def lruOps : PolicyOps Lru.State where
 
 def residentCost {P} (s : State P) : Nat := (s.map.map (·.2.cost)).sum
 
+/-- `residentCost` is the `costSum` of the accounting lemmas -/
+theorem residentCost_eq {P} (s : State P) : residentCost s = costSum s := rfl
+
+variable {P : Type}
+
+/-! ### accounting -/
+
+/-- C13 (accounting), every call but `run_maintenance`: if the keys of the map are distinct and
+    `current_cost` equals the resident cost sum modulo 2^64, the same holds after the call.  No
+    hypothesis on the policy: inserts (also overwriting with a different cost), multi ops, remove,
+    clear, the entry API, compute, `fetch_with`, restore, iteration, snapshots, the opportunistic
+    maintenance of a synchronous insert and the flush of the introspection calls (admission-driven
+    evictions subtract exactly the cost of the entries they removed). -/
+theorem C13_accounting_step (cfg : Cfg) (ops : PolicyOps P) (p0 : P) (o : Oracle) (s : State P) (op : Op)
+    (hop : op ≠ .runMaintenance) (hwf : WF s) (hacc : Acc s) :
+    let r := stepOp cfg ops p0 o s op
+    WF r.1 ∧ Acc r.1 := by
+  intro r
+  have hi : Inv s.resetLogs := (same_resetLogs s).inv ⟨hwf, hacc⟩
+  show Inv (stepOp cfg ops p0 o s op).1
+  cases op with
+  | get k => exact get_inv cfg _ k hi
+  | peek k => exact hi
+  | occupied k => exact hi
+  | insert async k vid cost =>
+    cases async
+    · exact opportunistic_inv cfg ops o _ k (insertCore_inv cfg _ k _ _ true hi)
+    · exact insertCore_inv cfg _ k _ _ true hi
+  | insertTtl async k vid cost ttl =>
+    cases async
+    · exact opportunistic_inv cfg ops o _ k (insertCore_inv cfg _ k _ _ true hi)
+    · exact insertCore_inv cfg _ k _ _ true hi
+  | remove k => exact removeKey_inv cfg ops _ k hi
+  | invalidate k => exact removeKey_inv cfg ops _ k hi
+  | clear => exact clearAll_inv cfg ops o _ hi.1
+  | advance d => exact Same.inv ⟨rfl, rfl, rfl⟩ hi
+  | runMaintenance => exact absurd rfl hop
+  | metrics => exact flush_inv cfg ops o _ hi
+  | orInsert k vid cost => exact orInsert_inv cfg _ k vid cost hi
+  | compute k vid => exact compute_inv _ k vid hi
+  | fetchWith k vid cost => exact fetchWith_inv cfg _ k vid cost hi
+  | multiget async ks =>
+    have key : ∀ (q : State P × List (Nat × Nat)), Inv q.1 →
+        Inv (if ks.length > q.2.length then (q.1.hit q.2.length).miss (ks.length - q.2.length)
+             else q.1.hit q.2.length) := by
+      intro q h
+      split
+      · exact (same_miss _ _).inv ((same_hit _ _).inv h)
+      · exact (same_hit _ _).inv h
+    cases async
+    · exact key _ (multigetSync_inv cfg ks _ [] hi)
+    · exact key _ (multigetAsync_inv cfg ops _ _ [] hi)
+  | multiInsert items =>
+    exact foldl_inv _ (fun s x h => insertCore_inv cfg s x.1 _ _ false h) _ _ hi
+  | multiRemove ks => exact multiRemoveLoop_inv cfg ops ks _ [] hi
+  | iter batch inter => exact iterAll_inv cfg ops o _ batch inter hi
+  | iterSnapshot inter => exact iterSnapshotAll_inv cfg ops o _ inter hi
+  | snapshot => exact toSnapshot_inv cfg ops o _ hi
+  | restore =>
+    show Inv (match s.resetLogs.snap with
+      | some sn => (State.restore cfg p0 s.resetLogs.now sn, Ret.unit)
+      | none => (s.resetLogs, Ret.unit)).1
+    split
+    · next sn hsn => exact restore_inv cfg p0 _ sn (hi.1.2 sn hsn)
+    · exact hi
+  | hold k => exact hold_inv cfg _ k hi
+  | release => exact release_inv _ hi
+  | gate closed =>
+    cases closed
+    · exact Same.inv ⟨rfl, rfl, rfl⟩ hi
+    · exact Same.inv ⟨rfl, rfl, rfl⟩ hi
+
+/-- C13 (accounting) for `run_maintenance`, PARTIAL: the same conclusion under the explicit
+    hypothesis that every capacity pass is honest — the amount the policy reports as released
+    equals (mod 2^64) the cost of the entries the pass really removes (`CapHonest`).  This is the
+    clause F8c breaks: `cleanup_capacity_for_shard` subtracts what the POLICY reports for its
+    victims whether or not they were resident (ghost keys, stale costs) — see `C13_fails_F8c`.
+    The drain (`perform_shard_maintenance`) and the TTL / TTI cleanups need no hypothesis. -/
+theorem C13_accounting_partial (cfg : Cfg) (ops : PolicyOps P) (p0 : P) (o : Oracle) (s : State P)
+    (hhonest : ∀ (s1 : State P) (i : Nat), WF s1 → CapHonest cfg ops o s1 i) (hwf : WF s) (hacc : Acc s) :
+    let r := stepOp cfg ops p0 o s .runMaintenance
+    WF r.1 ∧ Acc r.1 := by
+  intro r
+  have hi : Inv s.resetLogs := (same_resetLogs s).inv ⟨hwf, hacc⟩
+  exact runMaintenance_inv cfg ops o _ hi hhonest
+
+/-- whole histories: the invariant holds after any history in which every capacity pass is honest -/
+theorem C13_accounting_run_partial (cfg : Cfg) (ops : PolicyOps P) (p0 : P)
+    (hhonest : ∀ (o : Oracle) (s1 : State P) (i : Nat), WF s1 → CapHonest cfg ops o s1 i) :
+    ∀ (h : List (Op × Oracle)) (s : State P), WF s → Acc s →
+      WF (run cfg ops p0 s h).1 ∧ Acc (run cfg ops p0 s h).1 := by
+  intro h
+  induction h with
+  | nil => intro s hw ha; exact ⟨hw, ha⟩
+  | cons x rest ih =>
+    intro s hw ha
+    obtain ⟨op, o⟩ := x
+    have hstep : WF (stepOp cfg ops p0 o s op).1 ∧ Acc (stepOp cfg ops p0 o s op).1 := by
+      by_cases hop : op = .runMaintenance
+      · subst hop; exact C13_accounting_partial cfg ops p0 o s (hhonest o) hw ha
+      · exact C13_accounting_step cfg ops p0 o s op hop hw ha
+    exact ih _ hstep.1 hstep.2
+
+/-! ### capacity -/
+
+/-- with exact accounting and no u64 wrap, `current_cost ≤ capacity` IS the capacity bound on
+    the resident entries -/
+theorem capacity_bridge (cfg : Cfg) (s : State P) (ha : Acc s) (hlt : costSum s < U64)
+    (hc : s.met.currentCost ≤ cfg.capacity) : costSum s ≤ cfg.capacity := by
+  unfold Fv.Cache.Acc at ha
+  rw [Nat.mod_eq_of_lt hlt] at ha
+  omega
+
+/-- C13 (capacity), PARTIAL: one `cleanup_capacity_for_shard` pass started with exact accounting
+    brings the cache back under its capacity PROVIDED the pass is honest (`CapHonest`, broken by
+    F8c) and the policy released at least the overage without underflow.  "The policy can release
+    the overage" needs every resident key to be tracked by the policy with its exact cost; the
+    real code breaks that in four ways: F8a (only 16 write events are drained per shard and call),
+    F8b (the write-event buffer drops events when it holds 512), F9 and F11 (entries written by
+    the loader / restored from a snapshot are unknown to the policy) — `C13_fails_F8a`,
+    `C13_fails_F8b`, `Fv.Props.C17.C17_fails_F11`. -/
+theorem capacity_pass_enforces_partial (cfg : Cfg) (ops : PolicyOps P) (o : Oracle) (s : State P) (i : Nat)
+    (hw : WF s) (ha : Acc s) (hlt : costSum s < U64) (hh : CapHonest cfg ops o s i)
+    (hrel : s.met.currentCost - cfg.capacity ≤
+      (s.polEvict ops i (s.met.currentCost - cfg.capacity) (o.evictHint.getD i [])).2.2)
+    (hno : (s.polEvict ops i (s.met.currentCost - cfg.capacity) (o.evictHint.getD i [])).2.2 ≤ s.met.currentCost) :
+    (s.cleanupCapacity cfg ops o i).met.currentCost ≤ cfg.capacity ∧
+      costSum (s.cleanupCapacity cfg ops o i) ≤ cfg.capacity := by
+  have hinv := cleanupCapacity_inv cfg ops o s i ⟨hw, ha⟩ hh
+  have hle := cleanupCapacity_costSum_le cfg ops o s i hw
+  have hcc : (s.cleanupCapacity cfg ops o i).met.currentCost ≤ cfg.capacity := by
+    have hccs : s.met.currentCost = costSum s := by
+      unfold Fv.Cache.Acc at ha; rw [Nat.mod_eq_of_lt hlt] at ha; exact ha
+    unfold CapHonest at hh
+    unfold State.cleanupCapacity
+    simp only
+    split
+    · next h => exact h
+    · next hover =>
+      have he : Same (s.polEvict ops i (s.met.currentCost - cfg.capacity) (o.evictHint.getD i [])).1 s :=
+        same_polEvict ..
+      generalize s.polEvict ops i (s.met.currentCost - cfg.capacity) (o.evictHint.getD i []) = r at he hh hrel hno
+      obtain ⟨s1, victims, released⟩ := r
+      simp only at he hh hrel hno ⊢
+      split
+      · next hemp =>
+        exfalso
+        have hv : victims = [] := by simpa using hemp
+        subst hv
+        unfold capRemovedCost at hh
+        simp only [List.foldl_nil, Nat.sub_self] at hh
+        unfold U64 at hh hlt
+        omega
+      · show subW (victims.foldl (State.capRemove cfg i) s1).met.currentCost released ≤ cfg.capacity
+        rw [(capRemoves_props cfg i victims s1 (he.wf hw)).2.1, he.2.1]
+        unfold subW U64
+        unfold U64 at hlt
+        omega
+  exact ⟨hcc, capacity_bridge cfg _ hinv.2 (Nat.lt_of_le_of_lt hle hlt) hcc⟩
+
+/-! ### non-vacuity -/
 def cfgLru5 : Cfg := { capacity := 5, trackReads := true }
+
+/-- the empty oracle (no hints: the model falls back to map order) -/
+def o0 : Oracle := {}
+
+/-- a fresh cache satisfies the hypotheses of the accounting theorems -/
+theorem fresh_wf_acc (cfg : Cfg) (p0 : P) (now : Nat) : WF (State.fresh cfg p0 now) ∧ Acc (State.fresh cfg p0 now) :=
+  ⟨⟨List.nodup_nil, fun _ h => by cases h⟩, rfl⟩
+
+example : (WF (State.fresh cfgLru5 Lru.init 0) ∧ Acc (State.fresh cfgLru5 Lru.init 0)) ∧
+    (Op.insert false 1 101 3) ≠ .runMaintenance := ⟨fresh_wf_acc _ _ _, by decide⟩
+
+/-- the theorem applied to a state with content: overwrite with a different cost -/
+example : let s := (run cfgLru5 lruOps Lru.init (State.fresh cfgLru5 Lru.init 0)
+      [(.insert false 1 101 3, {}), (.insert false 1 102 2, {}), (.insert false 2 103 1, {})]).1
+    s.met.currentCost = 3 ∧ residentCost s = 3 := by decide
+
+/-- the null policy (unbounded cache) makes every capacity pass honest: the hypothesis of
+    `C13_accounting_partial` is satisfiable -/
+theorem nullOps_honest (cfg : Cfg) (o : Oracle) (s1 : State Unit) (i : Nat) : CapHonest cfg nullOps o s1 i := by
+  unfold CapHonest State.polEvict
+  cases s1.aux[i]? <;> simp [nullOps, capRemovedCost]
+
+example (cfg : Cfg) (o : Oracle) : ∀ (s1 : State Unit) (i : Nat), WF s1 → CapHonest cfg nullOps o s1 i :=
+  fun s1 i _ => nullOps_honest cfg o s1 i
+
+/-- an honest pass that enforces the capacity (hypotheses of `capacity_pass_enforces_partial`):
+    two resident entries of cost 3, both known to the LRU policy, capacity 5 -/
+def honestRun : State Lru.State :=
+  (run cfgLru5 lruOps Lru.init (State.fresh cfgLru5 Lru.init 0)
+    [(.insert false 2 102 3, {}), (.insert false 3 103 3, {}), (.runMaintenance, {})]).1
+
+example : honestRun.met.currentCost = 3 ∧ residentCost honestRun = 3 := by decide
+
+/-! ### witnesses: the full statements are false on the model (as on the code) -/
 
 /-- F8c (ghost victim): insert k, remove k, maintenance admits the removed key into the policy;
     two more inserts put the cache over capacity; the capacity pass "evicts" the ghost key and
@@ -28,5 +234,17 @@ def f8cRun : State Lru.State × List Ret :=
      (.insert false 2 102 3, {}), (.insert false 3 103 3, {}), (.runMaintenance, {})]
 
 theorem C13_fails_F8c : f8cRun.1.met.currentCost = 3 ∧ residentCost f8cRun.1 = 6 ∧ cfgLru5.capacity = 5 := by decide
+
+/-- F8a: 22 unit-cost inserts of distinct keys (no opportunistic maintenance), then ONE
+    `run_maintenance` with the real drain limit 16: the policy learns 16 keys, the capacity pass
+    evicts all 16, six entries stay resident in a cache of capacity 5 — and the accounting is
+    exact, so this is purely a capacity violation. -/
+def f8aRun : State Lru.State × List Ret :=
+  run cfgLru5 lruOps Lru.init (State.fresh cfgLru5 Lru.init 0)
+    ((List.range 22).map (fun k => (Op.insert false k (100 + k) 1, o0)) ++ [(Op.runMaintenance, o0)])
+
+theorem C13_fails_F8a :
+    residentCost f8aRun.1 = 6 ∧ f8aRun.1.met.currentCost = 6 ∧ cfgLru5.capacity = 5 ∧
+      cfgLru5.drainLimit = 16 ∧ cfgLru5.mcAlways = false := by decide +kernel
 
 end Fv.Props.C13
